@@ -9,6 +9,7 @@ CODES = {
     12: "C01: cells that shared a row no longer share one",
     13: "C01: a frame the operation was not applied to changed and no longer consists of whole rows of its former self",
     20: "C02: a frame other than the one being edited changed",
+    21: "C02: two column slots of live frames share a backing array (the separation invariant, observed on the heap)",
     30: "C20: the call panicked",
     31: "C20: a call that returned an error changed a frame",
     32: "C20: an invalid request was not signalled through the error result",
@@ -52,7 +53,7 @@ PROPS = {
             "rule": "C01 plan: random histories of 1-12 operations over 1-3 live frames, weighted towards AppendRow with unseen column names, "
                     "repeated Loc/Iloc labels and repeated CSV header names; after every successful step every live frame must be rectangular, "
                     "stored under its own names, Nrows() must agree, and surviving rows must be whole rows of the source."},
-    "C02": {"plans": ["C02"], "codes": [20],
+    "C02": {"plans": ["C02"], "codes": [20, 21],
             "rule": "C02 plan: every (deriving operation, in-place edit, side) pair on a 3-row frame followed by further edits on alternating sides, "
                     "then random interleavings over up to 5 live frames; every frame other than the edited one must keep its content."},
     "C03": {"focus": ["join"], "plans": ["C03"], "codes": [1, 2, 44],
